@@ -35,8 +35,8 @@ def r_unique_names(ck: Checker) -> None:
         func = ck.func(f"utils.globals:UniqueNames.{name}")
         itf = ck.interp(func)
         rets = [r for r in returns_of(func) if r.value is not None]
-        ck.need(len(rets) == 1 and isinstance(rets[0].value, ast.Name), f"{name} returns the found predicate")
-        p = rets[0].value.id  # type: ignore[union-attr]
+        ck.need(len(rets) == 1, f"{name} returns the found predicate")
+        p = unparse(rets[0].value)  # type: ignore[arg-type]
         reg = [c for c in attr_calls(func, "add") if unparse(c.func.value) == "self.predicates" and unparse(c.args[0]) == p]  # type: ignore[attr-defined]
         if reg:
             ck.guard(f"{name}: the returned predicate is not in the known vocabulary", func, reg[0], f"{p} not in self.predicates", "freshness")
